@@ -1158,6 +1158,13 @@ func headersReadOnlyRule(p *Prog, r *Report) {
 					recv = mu.Map
 				}
 			}
+			if c := callCommon(in); c != nil {
+				if b, ok := c.Value.(*ssa.Builtin); ok && b.Name() == "delete" && len(c.Args) == 2 {
+					if nt, ok := c.Args[0].Type().(*types.Named); ok && nt.Obj().Name() == "Header" && nt.Obj().Pkg() != nil && nt.Obj().Pkg().Path() == "net/http" {
+						recv = c.Args[0]
+					}
+				}
+			}
 			if c := callCommon(in); c != nil && c.StaticCallee() != nil {
 				f := c.StaticCallee()
 				if f.Signature.Recv() != nil && f.Pkg != nil && f.Pkg.Pkg.Path() == "net/http" {
@@ -1192,6 +1199,10 @@ func headersReadOnlyRule(p *Prog, r *Report) {
 				}
 				if c, ok := v.(*ssa.Call); ok && c.Call.IsInvoke() && c.Call.Method.Name() == "Header" {
 					bad += " the wrapped ResponseWriter's Header();"
+				}
+				// the tracer's own ResponseWriter.Header() hands out the wrapped writer's map
+				if c, ok := v.(*ssa.Call); ok && c.Call.StaticCallee() != nil && c.Call.StaticCallee().Name() == "Header" && c.Call.StaticCallee().Signature.Recv() != nil && p.IsRepoFunc(c.Call.StaticCallee()) {
+					bad += " the wrapped ResponseWriter's Header() (through " + shortFn(c.Call.StaticCallee()) + ");"
 				}
 			}
 			r.Check(bad == "", fmt.Sprintf("passthru.headers-readonly.%s#%d", shortFn(fn), n), "R-PASSTHRU", p.InstrPos(in), "the written header map is the tracer's own copy",
@@ -1361,6 +1372,10 @@ func noDataFormatStringRule(p *Prog, r *Report, key string, scope func(*ssa.Func
 					}
 				}
 			}
+			if f := c.StaticCallee(); idx < 0 && f != nil && !p.IsRepoFunc(f) {
+				// library functions following the (format string, args ...any) convention
+				idx = printfLikeIndex(c)
+			}
 			if idx < 0 || idx >= len(c.Args) {
 				return
 			}
@@ -1387,6 +1402,33 @@ func noDataFormatStringRule(p *Prog, r *Report, key string, scope func(*ssa.Func
 	r.Extra[key+"_printf_sites"] = n
 	r.Check(len(bad) == 0, key, "R-PASSTHRU", "-", fmt.Sprintf("all %d printf-like calls have constant format strings", n),
 		"a printf-like function is called with data as its format string: "+strings.Join(bad, "; ")+" — every '%' in the text (an error message from a test case, a name) is interpreted as a verb, so the message is not preserved")
+}
+
+// printfLikeIndex: the argument index of the format string of a call whose
+// callee's signature ends in (format string, args ...any) — the convention
+// go vet's printf check recognises (grpc's status.Errorf, log.Printf, …).
+func printfLikeIndex(c *ssa.CallCommon) int {
+	sig := c.Signature()
+	if sig == nil || !sig.Variadic() || sig.Params().Len() < 2 {
+		return -1
+	}
+	np := sig.Params().Len()
+	last, ok := sig.Params().At(np - 1).Type().(*types.Slice)
+	if !ok {
+		return -1
+	}
+	if it, ok := last.Elem().Underlying().(*types.Interface); !ok || it.NumMethods() != 0 {
+		return -1
+	}
+	fp := sig.Params().At(np - 2)
+	if b, ok := fp.Type().Underlying().(*types.Basic); !ok || b.Kind() != types.String || !strings.Contains(strings.ToLower(fp.Name()), "format") {
+		return -1
+	}
+	idx := np - 2
+	if !c.IsInvoke() && sig.Recv() != nil {
+		idx++
+	}
+	return idx
 }
 
 func isFormatParam(v ssa.Value, fn *ssa.Function) bool {
